@@ -1039,10 +1039,8 @@ def eval_pipeline(repo, run, rule):
     compiled in eval mode and evaluated - both (patched) in the same namespace, exec first; what eval returns is the value
     (handed to the context when it is a node); a namespace that is published is published with its content"""
     fi = repo.func('EvalNode.ayns.on_evaluate_impl')
-    from .c12 import exotic_eval_shape
-    why = exotic_eval_shape(fi)
-    if why:
-        raise AnalysisError('EvalNode.on_evaluate_impl: %s - shape not recognised by the trace rules' % why)
+    from .c12 import GuardedRun
+    run = GuardedRun(run, fi)
     paths = [p for p in tr.paths_of(repo, fi, no_inline={'_require_safe', '_patch_access_to_globals', 'evaluate_node', 'get_eval_symbols'}, follow_exceptions=False) if p.status == 'return']
     if not paths:
         raise AnalysisError('EvalNode.on_evaluate_impl: no returning path')
